@@ -56,6 +56,13 @@ static void item(int k, char p, int pl, char q, int ql) {
 	case 10: M("{--", CM_DEL_OPEN); A("{--"); R("{--"); break;
 	case 11: M("\\{", CM_PLAIN_TEXT); Tc(p, pl); A("\\{"); Ac(p, pl); R("\\{"); Rc(p, pl); break;
 	case 12: M("~>", CM_SUB_DIV); A("~>"); R("~>"); break;
+	/* more unmatched markers: each is left untouched by accept and by reject */
+	case 13: M("~~}", CM_SUB_CLOSE); A("~~}"); R("~~}"); break;
+	case 14: M("{~~", CM_SUB_OPEN); A("{~~"); R("{~~"); break;
+	case 15: M("{++", CM_ADD_OPEN); A("{++"); R("{++"); break;
+	case 16: M("--}", CM_DEL_CLOSE); A("--}"); R("--}"); break;
+	case 17: M("==}", CM_HI_CLOSE); A("==}"); R("==}"); break;
+	case 18: M("{>>", CM_COM_OPEN); A("{>>"); R("{>>"); break;
 	}
 }
 static int same(const DString *d, const char *e, size_t n) { if (d->currentStringLength != n) return 0; for (size_t i = 0; i < TMAX; i++) if (i < n && d->str[i] != e[i]) return 0; return 1; }
@@ -73,7 +80,7 @@ int main(void) {
 	}; for (int i = 0; i < ITEMS; i++) IN.kind[i] = KS[i]; }
 #endif
 	for (int i = 0; i < ITEMS; i++) {
-		ASSUME(IN.kind[i] <= 12);
+		ASSUME(IN.kind[i] <= 18);
 		IN.pl[i] = PLEN; IN.ql[i] = PLEN; ASSUME(IN.p[i] != 0 && IN.q[i] != 0);    /* payload LENGTHS are compile-time (symbolic offsets make symbolic execution of the pruning code explode: measured); payload BYTES are symbolic */      /* payload bytes are arbitrary: the tokeniser is not in this harness */
 		/* a stray closer must not follow an opener of its kind inside this script, a stray opener must not precede its closer: well-formedness */
 	}
